@@ -591,6 +591,8 @@ class PredTr:
 
     def expr(self, e, bound=None):
         bound = bound or {}
+        if isinstance(e, ast.Constant) and isinstance(e.value, bool):
+            return "true" if e.value else "false"
         if isinstance(e, ast.UnaryOp) and isinstance(e.op, ast.Not):
             return f"(!{self.expr(e.operand, bound)})"
         if isinstance(e, ast.BoolOp) and isinstance(e.op, ast.Or):
@@ -626,9 +628,24 @@ class PredTr:
             return e.left.id
         return None
 
-    def body(self, stmts):
+    def _is_none_test(self, e):
+        """`x is None` / `not x` for an Optional local x -> x"""
+        if isinstance(e, ast.Compare) and len(e.ops) == 1 and isinstance(e.ops[0], ast.Is) \
+                and isinstance(e.left, ast.Name) and e.left.id in self.opts \
+                and isinstance(e.comparators[0], ast.Constant) and e.comparators[0].value is None:
+            return e.left.id
+        if isinstance(e, ast.UnaryOp) and isinstance(e.op, ast.Not) and isinstance(e.operand, ast.Name) \
+                and e.operand.id in self.opts:
+            return e.operand.id
+        return None
+
+    def body(self, stmts, bound=None):
+        """assignments of `task._fut_waiter`, then `return e` - possibly behind early returns
+        (`if c: return a` followed by the rest  =  `if c then a else rest`; after `if x is None: return a`
+        the Optional x is known to be a value in the rest)"""
+        bound = bound or {}
         out = []
-        for s in stmts:
+        for i, s in enumerate(stmts):
             tgt = val = None
             if isinstance(s, ast.AnnAssign) and isinstance(s.target, ast.Name) and s.value is not None:
                 tgt, val = s.target.id, s.value
@@ -642,7 +659,25 @@ class PredTr:
                     continue
                 raise Unsupported("assignment in a predicate")
             if isinstance(s, ast.Return):
-                out.append("  " + self.expr(s.value))
+                out.append("  " + self.expr(s.value, bound))
+                return "\n".join(out)
+            if isinstance(s, ast.If):
+                rest = list(s.orelse) + list(stmts[i + 1:])
+                then = self.body(list(s.body), bound).strip()
+                x = self._is_none_test(s.test)
+                y = self._is_not_none(s.test)
+                if isinstance(s.test, ast.Name) and s.test.id in self.opts:
+                    y = s.test.id
+                if x is not None:
+                    other = self.body(rest, {**bound, x: f"{x}_v"}).strip()
+                    out.append(f"  (match {self.opts[x]} with | none => ({then}) | some {x}_v => ({other}))")
+                elif y is not None:
+                    then = self.body(list(s.body), {**bound, y: f"{y}_v"}).strip()
+                    other = self.body(rest, bound).strip()
+                    out.append(f"  (match {self.opts[y]} with | none => ({other}) | some {y}_v => ({then}))")
+                else:
+                    other = self.body(rest, bound).strip()
+                    out.append(f"  (if {self.expr(s.test, bound)} then ({then}) else ({other}))")
                 return "\n".join(out)
             raise Unsupported(f"statement {type(s).__name__} in a predicate")
         raise Unsupported("predicate may fall off its end")
